@@ -51,9 +51,10 @@ pub fn into_stream_$NAME<Source: VSource, I: ZvtSerializer + Sync + Send>(input:
             __sink.items().len() >= items0.len(),
             src.source.reliable() == old(src).source.reliable(),
             apdu_total(inbox0) matches Some(t0) && Ack::parse_spec(inbox0.take(t0)) is Some,
-//@ tag seq.$NAME.loop_left_only_behind_final_packet C05 C06
+//@ tag seq.$NAME.loop_left_only_behind_final_packet C05 C06 C09
         // the reply loop is left normally only behind a final packet: any other way out would end the stream without the
-        // final packet AND without an error item
+        // final packet AND without an error item (and the reconnecting client abandons a connection only on an error item
+        // or a timeout, so a fault swallowed here leaves the faulted connection in use: C09)
         ensures
             __sink.items().len() >= items0.len() + 1,
             terminal_$NAME(pkt::<$REPLY>(inbox0.skip(apdu_total(inbox0).unwrap()), (__sink.items().len() - items0.len() - 1) as nat).unwrap()),
